@@ -717,11 +717,14 @@ def case_form(ctx, r, mode):
                 pred = W.parse_urlencoded(transcode_latin1(c0))
                 if pred != bp:
                     ms.append("form-body-raw-non-ascii-octets-without-charset")
+            # candidate predictions: without the empty-pair defect (behaviour after its fix), then with it
+            cands = [(pred, ms)]
             if ("", "") in pred and has_bare_param((c0 or b"").decode("latin-1")):
-                pred = [p for p in pred if p != ("", "")]
-                ms.append("form-empty-name-empty-value-pair-dropped-after-body-with-bare-parameter")
-            if ms and after["body"] == ("urlencoded", pred):
-                mechs = ms
+                cands.append(([p for p in pred if p != ("", "")], ms + ["form-empty-name-empty-value-pair-dropped-after-body-with-bare-parameter"]))
+            for cpred, cms in cands:
+                if cms and after["body"] == ("urlencoded", cpred):
+                    mechs = cms
+                    break
         report(ctx, "form.writeback:" + ",".join(changed), {"content_before": c0, "content_after": req.raw_content, "changed": {c: [before[c], after[c]] for c in changed}}, mechs)
     return ("form",) + feats, nontrivial, sample
 
